@@ -1,0 +1,24 @@
+//go:build verif
+
+package smtp
+
+import (
+	"net"
+
+	"github.com/foxcpp/maddy/internal/auth"
+)
+
+// Export shims for the /verif authentication harness (properties C14, C15).
+// Compiled only with the "verif" build tag; no existing identifier is touched.
+
+// VerifAuthServe serves SMTP on a listener supplied by the harness (in-memory
+// connections) with the go-smtp server the endpoint built in Init.
+func (endp *Endpoint) VerifAuthServe(l net.Listener) error {
+	return endp.serv.Serve(l)
+}
+
+// VerifAuthSASL returns the SASL front-end exactly as Init configured it
+// (auth providers, auth_map, auth_map_normalize, sasl_login).
+func (endp *Endpoint) VerifAuthSASL() *auth.SASLAuth {
+	return &endp.saslAuth
+}
